@@ -56,6 +56,9 @@ SubRepl == Unrelated \cup
              VDict(<<KV(VStr(<<122, 122>>), VList(<<VObj("tuple12", <<>>, NoneOpt)>>))>>),
              \* the placeholder `...` ("as declared") as a member, and under a key nothing declares
              VEllipsis, VDict(<<KV(VStr(<<122, 122>>), VEllipsis)>>),
+             \* ... and as a *key* that carries a value
+             VDict(<<KV(VEllipsis, VList(<<>>))>>), VList(<<VDict(<<KV(VEllipsis, VInt(1))>>)>>),
+             VDict(<<KV(VStr(<<122, 122>>), VDict(<<KV(VEllipsis, VNone)>>))>>),
              \* non-finite floats are floats: as members they reach from_native
              VInf, VList(<<VNegInf>>),
              \* keys whose text could mean something to a DSL or a formatter
